@@ -87,7 +87,10 @@ def step_compare(run, c, obs_list, key, idmap=None, tol_scale=1.0, warmup=False,
         run.skip('reduced system singular / ill-conditioned (not well-posed)')
         return None
     g = (builder or GC.build_graph)(c, idmap)
-    old = [v.pose.copy() for v in g._vertices]
+    idm = idmap or (lambda j: j)
+    by_id = {v.id: v for v in g._vertices}
+    listed = [by_id[idm(j)] for j in range(len(c['verts']))]          # the vertex objects in the order of the case (as supplied)
+    old = [v.pose.copy() for v in listed]
     custom = any(e['cls'] in ('prior', 'relpose', 'range', 'mid') for e in c['edges'])
 
     def per_vertex(o, d):
@@ -112,16 +115,16 @@ def step_compare(run, c, obs_list, key, idmap=None, tol_scale=1.0, warmup=False,
     if warmup:
         # History dimension: the same Graph object has already been optimised once with a SMALLER fixed set; afterwards the user
         # restores the poses and marks more vertices fixed.  The step must depend on the current state only (no stale linear system).
-        want = [bool(v.fixed) for v in g._vertices]
+        want = [bool(v.fixed) for v in listed]
         fixed_idx = [j for j, f in enumerate(want) if f] or [0]
-        for j, v in enumerate(g._vertices):
+        for j, v in enumerate(listed):
             v.fixed = (j == fixed_idx[-1])
         try:
             with contextlib.redirect_stdout(io.StringIO()):
                 g.optimize(tol=0.0, max_iter=1, fix_first_pose=False, verbose=False)
         except Exception:  # noqa
             pass
-        for v, p, f in zip(g._vertices, old, want):
+        for v, p, f in zip(listed, old, want):
             v.pose = p.copy()
             v.fixed = f
         run.notes['warmup_histories'] = run.notes.get('warmup_histories', 0) + 1
@@ -131,7 +134,11 @@ def step_compare(run, c, obs_list, key, idmap=None, tol_scale=1.0, warmup=False,
     except Exception as ex:  # noqa
         run.violation(dict(key, outcome='raised'), 'optimize raised %r on a well-posed lattice graph | case %r' % (ex, c), dict(case=c))
         return None
-    got = GC.code_dx(old, g)
+    try:
+        got = [np.asarray((v.pose - p0).to_compact(), dtype=float) for p0, v in zip(old, listed)]
+    except Exception as ex:  # noqa
+        run.violation(dict(key, outcome='raised'), 'vertex poses unusable after optimize: %r | case %r' % (ex, c), dict(case=c))
+        return None
     scale = (1.0 + float(np.max(np.abs(dx)))) if len(dx) else 1.0
     tol = (2e-5 if custom else 1e-10) * scale * max(1.0, cond ** 0.5 if custom else cond * 1e-2) * tol_scale
     best = None
